@@ -180,7 +180,10 @@ def obligations(tier, seed):
                 a, b_ = key
                 body = f"""
     mod = {cls_expr(mt)}()
-    for which, val in ((w1, x1), (w2, x2), (w3, x3)):
+    # two assignments: the first reaches every state the pair can be in ((on, off), (off, on), (off, off): assigning either member
+    # clears the other), the second is then an arbitrary assignment from an arbitrary reachable state -- the inductive step for
+    # sequences of any length
+    for which, val in ((w1, x1), (w2, x2)):
         if which:
             mod.{a} = val
         else:
@@ -192,9 +195,9 @@ def obligations(tier, seed):
     m2 = rt(Synth(mod)).module
     return m2.{a} == last_a and m2.{b_} == last_b and not (m2.{a} and m2.{b_})
 """
-                obs.append(Ob(f"exclusive.{mt}.{a}", build([B("w1"), B("x1"), B("w2"), B("x2"), B("w3"), B("x3")], body, setup=SETUP),
-                              f"{mt}: {a} and {b_} (declared mutually exclusive) are never both on after any three assignments, also after save/load",
-                              group="exclusive", shape=f"{mt}(), three assignments", symbolic="which option and which value, three times", timeout=240))
+                obs.append(Ob(f"exclusive.{mt}.{a}", build([B("w1"), B("x1"), B("w2"), B("x2")], body, setup=SETUP),
+                              f"{mt}: {a} and {b_} (declared mutually exclusive) are never both on after any assignment from any reachable state of the pair, also after save/load",
+                              group="exclusive", shape=f"{mt}(), two assignments (the first reaches every state of the pair)", symbolic="which option and which value, twice", timeout=300))
     # structural: no two options of a type share a bit (concrete side-condition on the live classes AND the YAML)
     src = "from vf.prelude import *\n" + SETUP + f'''
 SPEC = {[(mt, [(o["name"], o["byte"], o["bit"], o["size"]) for o in sp["options"]]) for mt, sp in S.items() if sp["options"]]!r}
